@@ -513,6 +513,22 @@ def gen_cases(rng, tier):
                "ctor": {"allow_duplicates": True, "random_seed": rng.randrange(1000), "shuffle": True, "num_samples": {},
                         "debug_log": False},
                "n_ops": 40, "seed": rng.randrange(10 ** 9), "lookahead": 14, "raw_state": False}
+    # (b'') random searcher restricted to a short list of configurations, driven beyond the point where the list is used
+    # up: snapshots with an empty remainder
+    for _ in range(8 if quick else 120):
+        space = S.gen_space(rng, finite=rng.random() < 0.5, small=False, consts=False)
+        cs = S.build_space(space)
+        s0 = RandomSearcher(dict(cs), metric=METRIC, points_to_evaluate=[], random_seed=rng.randrange(1000), allow_duplicates=True)
+        yield {"scenario": "clone-twin", "kind": "random", "space": space, "p2e": [],
+               "ctor": {"allow_duplicates": False, "random_seed": rng.randrange(1000), "shuffle": True, "num_samples": {},
+                        "debug_log": False, "restrict": [S._plain(s0.get_config()) for _ in range(rng.randint(1, 4))]},
+               "n_ops": 40, "seed": rng.randrange(10 ** 9), "lookahead": 12, "raw_state": False}
+    # (b3) model-based GP searcher restored in the middle of its fit / skip rhythm
+    for _ in range(6 if quick else 40):
+        n = 8 if quick else 11
+        yield {"scenario": "gp-fit-twin", "seed": rng.randrange(10 ** 9), "num_init_random": rng.choice([2, 3]),
+               "skip_init": rng.choice([3, 4]), "skip_period": rng.choice([1, 2, 3, 3]), "n_steps": n, "lookahead": 3,
+               "ks": sorted(rng.sample(range(0, n + 1), 4 if quick else 6))}
     # (c) dill twins of whole schedulers
     for i in range(44 if quick else 700):
         name = DILL_SCHEDS[i % len(DILL_SCHEDS)]
@@ -556,8 +572,59 @@ def corpus():
 # ---------------------------------------------------------------------------------
 
 
+def run_gp_fit_twin(spec):
+    """GPFIFOSearcher in its model-based phase (the surrogate model is really fitted, with `opt_skip_period` possibly
+    > 1, so that the restored searcher has to continue the fit / skip rhythm of the original): snapshot (pickled
+    get_state) after k finished trials, restore into a freshly built template, both continue with the same events.
+    One start of the optimiser and no pending trial at suggest time: under these conditions the continuation of the
+    real code is reproducible bit for bit."""
+    from syne_tune.config_space import uniform
+    rng = random.Random(spec["seed"])
+    cs = {"x": uniform(-1.0, 1.0), "y": uniform(0.0, 2.0)}
+    kw = dict(metric=METRIC, points_to_evaluate=[], random_seed=spec["seed"] % 1000, num_init_random=spec["num_init_random"],
+              opt_skip_init_length=spec["skip_init"], opt_skip_period=spec["skip_period"], opt_nstarts=1, opt_maxiter=spec.get("maxiter", 10),
+              debug_log=False)
+    a, b = rng.uniform(-0.5, 0.5), rng.uniform(0.5, 1.5)
+
+    def step(sr, tid):
+        c = sr.get_config(trial_id=str(tid))
+        sr.register_pending(str(tid), config=c)
+        sr.on_trial_result(str(tid), c, {METRIC: (c["x"] - a) ** 2 + 0.5 * (c["y"] - b) ** 2}, update=True)
+        return {k: float(v) for k, v in c.items()}
+
+    mon = []
+    orig = GPFIFOSearcher(dict(cs), **kw)
+    n, L = spec["n_steps"], spec["lookahead"]
+    snaps, outs = [], []
+    for i in range(n + L):
+        if i <= n:
+            snaps.append(pickle.dumps(orig.get_state()))
+        outs.append(step(orig, i))
+    compared = 0
+    for k in spec["ks"]:
+        try:
+            rest = GPFIFOSearcher(dict(cs), **dict(kw, random_seed=(spec["seed"] + 17) % 1000)).clone_from_state(pickle.loads(snaps[k]))
+            cont = [step(rest, k + j) for j in range(L)]
+        except Exception as e:  # noqa
+            mon.append({"signature": "c16:gp-fifo-clone-raises", "what": f"restored model-based GPFIFOSearcher (snapshot after {k} trials) "
+                        f"raised {type(e).__name__}: {e}"})
+            break
+        compared += L
+        if cont != outs[k:k + L]:
+            j = next(j for j in range(L) if cont[j] != outs[k + j])
+            mon.append({"signature": "c16:gp-fifo-model-based-clone-diverges",
+                        "what": f"GPFIFOSearcher(opt_skip_period={spec['skip_period']}, opt_skip_init_length={spec['skip_init']}) snapshot after "
+                                f"{k} finished trials: suggestion {k + j} of the restored searcher is {cont[j]}, the original gave {outs[k + j]}",
+                        "detail": {"k": k}})
+            break
+    return {"lines": [], "monitor": mon, "meta": {"hist": {"gp-fit-twin": 1, "gp-fit-twin:compared": compared,
+                                                           f"gp-fit-twin:skip_period={spec['skip_period']}": 1}, "nontrivial": compared > 0}}
+
+
 def run_impl(spec):
     sc = spec["scenario"]
+    if sc == "gp-fit-twin":
+        return run_gp_fit_twin(spec)
     if sc == "clone-twin":
         return run_clone_twin(spec)
     if sc == "dill-twin":
